@@ -1,7 +1,16 @@
 package twotables
 
 // gomacro:SQL ADD UNIQUE(Name)
+// gomacro:SQL ADD UNIQUE(Code)
+// gomacro:SQL ADD UNIQUE(Email)
+// gomacro:SQL ADD UNIQUE(City, Street)
+// gomacro:SQL ADD UNIQUE(Street, Zip)
 type Client struct {
-	Id   int64
-	Name string
+	Id     int64
+	Name   string
+	Code   string
+	Email  string
+	City   string
+	Street string
+	Zip    int
 }
